@@ -20,8 +20,15 @@ def done() -> bool:
     return True
 
 
-def check(cond, msg: str = "") -> None:
+def check(cond, msg="") -> None:
+    """msg may be a callable: messages built from symbolic data must be lazy, otherwise rendering them realises
+    the data on every path."""
     if not cond:
+        if callable(msg):
+            try:
+                msg = msg()
+            except Exception:  # noqa: BLE001
+                msg = "property violated"
         raise AssertionError(msg or "property violated")
 
 
